@@ -148,8 +148,13 @@ def gen_batch(rng, nstructs=14, can=False, granular_share=0.0):
             bus = rng.choice(["b", "b1", "bus", "can1", "ab", "x"])
             # ids from a small pool half of the time: several bindings share an id on different buses (and now and then
             # on the same bus, where the first one wins in both wrappers and in the model)
-            cid = rng.choice([7, 100, 1000, 2047]) if rng.random() < 0.5 else rng.randint(0, 2047)
+            cid = rng.choice([0, 0, 7, 100, 1000, 2047]) if rng.random() < 0.5 else rng.randint(0, 2047)
             extra.append(f'impl can for {name} {{\n    id: {cid},\n    bus: "{bus}",\n}}')
+    if not can:
+        # an enum that is reachable only through two container levels, and an Optional in front of plain fields
+        d.enums.append(("N0", [("NA", 0), ("NB", 5), ("NC", 255)]))
+        d.structs.append(("SN", [("a", 1, ("dyn", ("arr", ("enum", "N0"), 2))), ("b", 0, ("opt", ("arr", ("enum", "N0"), 2))),
+                                 ("c", 2, ("u", 8))]))
     d.extra = "\n".join(extra) + "\n"
     return d
 
@@ -257,7 +262,19 @@ def run(prop, tier, replay=None):
     rep = Report(prop, tier)
     rng = random.Random(seed() * 7368787 + int(prop[1:]))
     rep.check_proofs()
-    nb = {"C03": 6, "C13": 6, "C18": 6, "C15": 4}[prop] if tier == "quick" else 48
+    run_core(rep, prop, tier, rng)
+    rep.cov["rule"] = ("schemas of ~14 structs each (every type constructor, nesting <= 2, ids shuffled vs declaration order; "
+                       "for C18 flat CAN bindings named after their struct with bus names of 1..4 characters) generated with "
+                       "fcp_cpp from /repo's templates, compiled once per schema with g++ -std=c++17 together with a generic JSON "
+                       "driver; boundary/random values per struct; distinct by schema text, one evaluation per (struct, value, direction)")
+    rep.assumptions += ["values travel as JSON: infinities and NaN excluded; enum values are distinct enumerators",
+                        "g++ 12 decides 'compiles as C++17'"]
+    return rep.finish()
+
+
+def run_core(rep, prop, tier, rng):
+    """the C++ back end for `prop`; C15 (reached from harness/dbc.py) runs permuted twins through encode and decode"""
+    nb = {"C03": 6, "C13": 6, "C18": 6, "C15": 3}[prop] if tier == "quick" else {"C15": 12}.get(prop, 48)
     nv = 8 if tier == "quick" else 20
     can = prop == "C18"
     descs = [gen_batch(rng, can=can, granular_share=0.5 if prop in ("C13", "C18") else 0.0) for _ in range(nb)]
@@ -300,13 +317,7 @@ def run(prop, tier, replay=None):
         for dd, exe, out in builds:
             if dd:
                 shutil.rmtree(dd, ignore_errors=True)
-    rep.cov["rule"] = ("schemas of ~14 structs each (every type constructor, nesting <= 2, ids shuffled vs declaration order; "
-                       "for C18 flat CAN bindings named after their struct with bus names of 1..4 characters) generated with "
-                       "fcp_cpp from /repo's templates, compiled once per schema with g++ -std=c++17 together with a generic JSON "
-                       "driver; boundary/random values per struct; distinct by schema text, one evaluation per (struct, value, direction)")
-    rep.assumptions += ["values travel as JSON: infinities and NaN excluded; enum values are distinct enumerators",
-                        "g++ 12 decides 'compiles as C++17'"]
-    return rep.finish()
+    return None
 
 
 def first_error(out):
